@@ -3,10 +3,30 @@
    profiles (m : mode = overflow-checking dev build | wrapping release build): the transcribed
    index arithmetic (Model/Fallible.v, written with explicit machine arithmetic Model/U64.v)
    returns Ok of the ideal unbounded-arithmetic specification — it can neither panic nor wrap.
-   Refuted/C16Legacy.v keeps kernel-checked witnesses that the code before the repairs did. *)
+   Refuted/C16Legacy.v keeps kernel-checked witnesses that the code before the repairs did.
+   Session 3: the C16_generated_* theorems tie Model/Fallible.v to the Rust SOURCE a second way:
+   Gen/Arith.v is regenerated from /repo by tools/gen_arith.py before every proof-layer run and
+   proved equal to the hand-written functions (notes/GEN.md).
+   LEVELS (state after session 3).  (1) per-dimension arithmetic: the C16_range / mask / reverse /
+   get_index_direct / matrix_try_index / size-test theorems below.  (2) API level, PROVED (second
+   half of this file, "API LEVEL" banner): for the D-dimensional model Model/FallibleApi.v the
+   constructors TensorRange / TensorMask ::from / from_strict (total for EVERY input, complete
+   functional characterisation, every Err payload pinned, lenient-clips, invariant for the
+   getter), the checked getters of TensorRange (C16_tensor_range_get_total), TensorMask,
+   TensorReverse, MatrixRange, MatrixReverse in both arithmetic modes, with_names,
+   try_into_scalar, Tensor::try_from, TensorAccess::try_from, and record-container collection
+   (Model/RecordCollect.v: the history.unwrap() is unreachable).  (3) Families decided by other
+   properties' models, re-exported here as an index: every view adaptor / composition as the
+   receiver (C02's `option`-valued model, ideal arithmetic: C16_every_adaptor_checked_get),
+   determinant / inverse / QR absence (C07 / C08: C16_linalg_absent_iff).  Those models have no
+   Panic constructor: "does not panic" for them is carried by the correspondence (C16 op 12 runs
+   every adaptor as the receiver with the boundary alphabet; C07 / C08 / C17 workloads), not by
+   a theorem.  NOT proved: Cholesky / LDL^T / Gaussian constructors on degenerate input are
+   indexed only in notes/C01_C16.md (C08_cholesky_rejects, C08_ldlt_rejects, C17_mv_constructors). *)
 From Coq Require Import List ZArith NArith Bool Arith.
 From EasyML Require Import Base.Sx Model.Shape Model.U64 Model.Fallible Model.FallibleApi
-     Proofs.ShapeP Proofs.C16P Proofs.C16ApiP.
+     Proofs.ShapeP Proofs.C16P Proofs.C16ApiP Gen.Arith Proofs.GenArithP Proofs.GenArithViewsP.
+From EasyML Require Model.Views Model.MatrixViews.
 Import ListNotations.
 Open Scope N_scope.
 
@@ -97,6 +117,102 @@ Theorem C16_tensor_range_maps_into_source : forall cl (sh : shape) idx j,
   map_by_range_spec cl idx = Some j -> in_range j (lens_of sh).
 Proof. exact map_by_range_spec_in_range. Qed.
 
+(* ---- second tie between model and code (besides the differential correspondence) ----
+   Gen/Arith.v is REGENERATED from /repo's Rust source by tools/gen_arith.py before the proof
+   layer runs (tools/props/c16.py pre_proof); these theorems re-prove, on every run, that the
+   translated bodies equal the hand-written model functions the theorems above are about.
+   A source change that alters one of the functions breaks the lemma that names it
+   (GENERATED-EQUIVALENCE-BROKEN <lemma> in the proof-layer log). *)
+Theorem C16_generated_arith_matches_model : forall md,
+  (forall s l, gen_IndexRange_new md s l = Ok (mkRange s l)) /\
+  (forall r i, gen_IndexRange_map md r i = ir_map md r i) /\
+  (forall r i, gen_IndexRange_mask md r i = ir_mask r i) /\
+  (forall r mx, gen_IndexRange_clip md r mx = ir_clip r mx) /\
+  (forall s e, gen_IndexRange_from_range md (s, e) = Ok (range_of_start_end s e)) /\
+  (forall nm len r,
+     gen_range_exceeds_bounds_body md (nm, len) (Some r) = omap exceeds_flow (ir_exceeds r len) /\
+     gen_range_exceeds_bounds_body md (nm, len) None = Ok (Next tt)) /\
+  (forall i nm len,
+     gen_reverse_indexes_elem md i (nm, len) true = rev_index md len i /\
+     gen_reverse_indexes_elem md i (nm, len) false = Ok i) /\
+  (forall rows cols row col,
+     gen_Matrix_try_get_reference md (mkGenMatrix rows cols) row col = matrix_try_index md rows cols row col /\
+     gen_Matrix_try_get_reference_mut md (mkGenMatrix rows cols) row col = matrix_try_index md rows cols row col) /\
+  (forall acc i s nm l,
+     gen_get_index_direct_body md acc i s (nm, l) =
+     if l <=? i then Ok (Return None) else obind (u_mul md i s) (fun p => omap Next (u_add md acc p))).
+Proof.
+  intros md.
+  split; [intros; apply gen_IndexRange_new_eq|]. split; [intros; apply gen_IndexRange_map_eq|].
+  split; [intros; apply gen_IndexRange_mask_eq|]. split; [intros; apply gen_IndexRange_clip_eq|].
+  split; [intros; apply gen_IndexRange_from_range_eq|].
+  split; [intros; apply gen_range_exceeds_bounds_body_eq|].
+  split; [intros; apply gen_reverse_indexes_elem_eq|].
+  split; [intros; split; [apply gen_Matrix_try_get_reference_eq|apply gen_Matrix_try_get_reference_mut_eq]|].
+  intros; apply gen_get_index_direct_body_eq.
+Qed.
+
+(* the two translated LOOPS (body + frame: initial state, early return, what follows the loop),
+   over the arrays traversed in lockstep: get_index_direct is the model's gid_m, and
+   range_exceeds_bounds is "the first dimension that exceeds decides" *)
+Theorem C16_generated_loops_match_model : forall md,
+  (forall idx st (sh : list (N * N)), length idx = length sh -> length st = length sh ->
+     gen_get_index_direct md (zip3 idx st sh) = gid_m md idx st (map snd sh) 0) /\
+  (forall sh rs, gen_range_exceeds_bounds md (combine sh rs) = Ok (exceeds_any sh rs)).
+Proof.
+  intros md. split; intros.
+  - apply gen_get_index_direct_eq; assumption.
+  - apply gen_range_exceeds_bounds_eq.
+Qed.
+
+(* InvalidShapeError::checked_elements (the overflow-checked element count of the validating
+   constructors, fix F7): closure body and try_fold frame, against Shape.checked_elements *)
+Theorem C16_generated_checked_elements_matches_model : forall md,
+  (forall acc nm l, gen_checked_elements_step md acc (nm, l) = Ok (checked_mul acc l)) /\
+  (forall sh : list (N * N), gen_checked_elements md sh = Ok (checked_prod_from 1 (map snd sh))) /\
+  (forall sh : shape, gen_checked_elements md (shN sh) = Ok (checked_elements sh)).
+Proof.
+  intros md. split; [intros; apply gen_checked_elements_step_eq|].
+  split; [intros; apply gen_checked_elements_eq|intros; apply gen_checked_elements_shape].
+Qed.
+
+(* the same generated definitions against the IDEAL-arithmetic hand models of these functions
+   used by C12 (Model/MatrixViews.v), C02 (Model/Views.v) and C01 (Model/Shape.v) *)
+Theorem C16_generated_arith_matches_view_models : forall md,
+  (forall r mx, omap to_mv (gen_IndexRange_clip md r mx) = Ok (MatrixViews.ir_clip (to_mv r) mx) /\
+                omap to_v (gen_IndexRange_clip md r mx) = Ok (Views.r_clip (to_v r) mx)) /\
+  (forall r i, gen_IndexRange_mask md r i = Ok (Views.r_mask (to_v r) i)) /\
+  (forall r i, i + r_start r <= usize_max ->
+     gen_IndexRange_map md r i = Ok (MatrixViews.ir_map (to_mv r) i) /\
+     gen_IndexRange_map md r i = Ok (Views.r_map (to_v r) i)) /\
+  (forall s e, omap to_mv (gen_IndexRange_from_range md (s, e)) = Ok (MatrixViews.ir_of_range s e)) /\
+  (forall b i nm len, 0 < len ->
+     gen_reverse_indexes_elem md i (nm, len) b = Ok (MatrixViews.reverse_index b len i)) /\
+  (forall (sh : shape) rs,
+     gen_range_exceeds_bounds md (combine (shN sh) rs) =
+     Ok (Views.range_exceeds_bounds sh (map (option_map to_v) rs))) /\
+  (forall (sh : shape) idx, valid_shape sh -> elements sh <= usize_max -> length idx = length sh ->
+     gen_get_index_direct md (zip3 idx (compute_strides sh) (shN sh)) =
+     Ok (get_index_direct idx (compute_strides sh) sh)).
+Proof.
+  intros md.
+  split; [intros; apply gen_clip_views|]. split; [intros; apply gen_mask_views|].
+  split; [intros; apply gen_map_views; assumption|]. split; [intros; apply gen_from_range_views|].
+  split; [intros; apply gen_reverse_views; assumption|].
+  split; [intros; apply gen_range_exceeds_bounds_views|].
+  intros; apply gen_get_index_direct_shape; assumption.
+Qed.
+
+(* non-vacuity of the generated side: the translated mask / clip / reverse compute the boundary
+   instances (kernel-evaluated on the generated definitions themselves) *)
+Example C16_generated_nonvacuous :
+  gen_IndexRange_mask Debug (mkRange 0 1) usize_max = Ok usize_max /\
+  gen_IndexRange_clip Release (mkRange 1 usize_max) 5 = Ok (mkRange 1 4) /\
+  gen_reverse_indexes_elem Debug 3 (0, 3) true = Ok 3 /\
+  gen_get_index_direct Debug (zip3 [1; 2] [3; 1] [(0, 2); (1, 3)]) = Ok (Some 5) /\
+  gen_range_exceeds_bounds Debug (combine [(0, 3)] [Some (mkRange 1 usize_max)]) = Ok true.
+Proof. vm_compute. repeat split. Qed.
+
 (* non-vacuity: the boundary instance that used to fail (mask over a 2-element source, index
    usize::MAX) meets the hypotheses and is absent *)
 Example C16_nonvacuous :
@@ -121,3 +237,278 @@ Print Assumptions C16_matrix_size_test_total.
 Print Assumptions C16_tensor_range_get_total.
 Print Assumptions C16_tensor_range_get_mode_independent.
 Print Assumptions C16_tensor_range_maps_into_source.
+Print Assumptions C16_generated_arith_matches_model.
+Print Assumptions C16_generated_loops_match_model.
+Print Assumptions C16_generated_arith_matches_view_models.
+Print Assumptions C16_generated_checked_elements_matches_model.
+
+(* ======================================================================================== *)
+(* API LEVEL (builder C01_C16, session 3; appended block — keep when regenerating this file) *)
+(* For each fallible API family of the property: the totality theorem (outcome <> Panic for   *)
+(* every input of the argument types' domain, both arithmetic modes where the code computes   *)
+(* with usize) and the exact characterisation of success and of every error payload.          *)
+(* Model: Model/FallibleApi.v (D-dimensional constructors and checked getters),               *)
+(* Model/RecordCollect.v, Model/Tensor.v.  Proofs: Proofs/C16CtorP.v, C16GetP.v,              *)
+(* C16CollectP.v, C16ConvP.v, C16IndexP.v.                                                    *)
+(* ======================================================================================== *)
+From Coq Require Import Permutation.
+From EasyML Require Import Model.Tensor Model.RecordCollect Proofs.C01P Proofs.C16CtorP
+     Proofs.C16GetP Proofs.C16CollectP Proofs.C16ConvP.
+From EasyML Require Model.Views Model.Num Model.LinAlg Model.Decomp Proofs.C02P Proofs.C16IndexP.
+
+(* ---- range and mask construction, lenient and strict ---- *)
+
+(* from_named_to_all: never a panic; Ok exactly for distinct names that all occur in the shape;
+   the error is InvalidDimensions { provided names, valid names } *)
+Theorem C16_from_named_to_all_total : forall sh rs,
+  from_named_to_all sh rs <> Panic /\
+  ((exists all, from_named_to_all sh rs = Ok all) <-> names_ok sh rs) /\
+  (forall e, from_named_to_all sh rs = Err e -> e = invalid_dimensions sh rs).
+Proof.
+  intros sh rs. split; [exact (from_named_to_all_total sh rs)|].
+  split; [exact (from_named_to_all_ok_iff sh rs)|exact (from_named_to_all_err sh rs)].
+Qed.
+
+(* TensorRange::from / from_strict and TensorMask::from / from_strict: NO input whatsoever
+   (duplicate / unknown names, starts and lengths up to usize::MAX and beyond, any shape) makes
+   them panic, in either build profile *)
+Theorem C16_tensor_range_ctor_total : forall strict sh rs, tensor_range strict sh rs <> Panic.
+Proof. exact tensor_range_total. Qed.
+
+Theorem C16_tensor_mask_ctor_total : forall m strict sh rs, tensor_mask m strict sh rs <> Panic.
+Proof. exact tensor_mask_total. Qed.
+
+(* ... and over a source whose names are unique and whose lengths are usizes the result is
+   determined completely: strict mode reports OutsideShape { shape, requests } exactly when some
+   requested start + length (unbounded) exceeds its dimension; otherwise every dimension is
+   clipped to [start, min(start + length, len)) and the view exists exactly when every
+   dimension keeps at least one index (else InvalidShape of the clipped shape) *)
+Theorem C16_tensor_range_ctor_spec : forall strict sh rs,
+  NoDup (names_of sh) -> Forall (fun d => snd d <= usize_max) sh -> names_ok sh rs ->
+  tensor_range strict sh rs =
+    if strict && strict_outside sh rs then Err (outside_shape sh (all_of sh rs))
+    else if forallb (fun d => 0 <? snd d) (range_shape sh rs)
+         then Ok (range_shape sh rs, range_clipped sh rs)
+         else Err (SL [SZ 1; sshape (range_shape sh rs)]).
+Proof. exact tensor_range_spec. Qed.
+
+Theorem C16_tensor_mask_ctor_spec : forall m strict sh rs,
+  NoDup (names_of sh) -> Forall (fun d => snd d <= usize_max) sh -> names_ok sh rs ->
+  tensor_mask m strict sh rs =
+    if strict && strict_outside sh rs then Err (outside_shape sh (all_of sh rs))
+    else if forallb (fun d => 0 <? snd d) (mask_shape sh rs)
+         then Ok (mask_shape sh rs, mask_clipped sh rs)
+         else Err (SL [SZ 1; sshape (mask_shape sh rs)]).
+Proof. exact tensor_mask_spec. Qed.
+
+(* every error value, for ANY input: InvalidDimensions carries provided + valid names (and is
+   returned only for a bad name list); OutsideShape (strict only) carries the source shape and
+   the per-dimension requests; InvalidShape carries a shape that is indeed invalid *)
+Theorem C16_tensor_range_ctor_errors : forall strict sh rs e, tensor_range strict sh rs = Err e ->
+  (e = invalid_dimensions sh rs /\ ~ names_ok sh rs) \/
+  (strict = true /\ exists all, from_named_to_all sh rs = Ok all /\ e = outside_shape sh all) \/
+  (exists sh', e = SL [SZ 1; sshape sh'] /\ valid_shape_b sh' = false).
+Proof. exact tensor_range_errors. Qed.
+
+Theorem C16_tensor_mask_ctor_errors : forall m strict sh rs e, tensor_mask m strict sh rs = Err e ->
+  (e = invalid_dimensions sh rs /\ ~ names_ok sh rs) \/
+  (strict = true /\ exists all, from_named_to_all sh rs = Ok all /\ e = outside_shape sh all) \/
+  (exists sh', e = SL [SZ 1; sshape sh'] /\ valid_shape_b sh' = false).
+Proof. exact tensor_mask_errors. Qed.
+
+(* lenient construction clips rather than fails whenever at least one index remains (D-dim) *)
+Theorem C16_tensor_range_lenient_clips : forall sh rs,
+  NoDup (names_of sh) -> Forall (fun d => snd d <= usize_max) sh -> names_ok sh rs ->
+  ((exists v, tensor_range false sh rs = Ok v) <->
+   Forall (fun d => r_start (range_req rs d) < snd d /\ 0 < r_length (range_req rs d)) sh).
+Proof. exact tensor_range_lenient_clips. Qed.
+
+Theorem C16_tensor_mask_lenient_clips : forall m sh rs,
+  NoDup (names_of sh) -> Forall (fun d => snd d <= usize_max) sh -> names_ok sh rs ->
+  ((exists v, tensor_mask m false sh rs = Ok v) <->
+   Forall (fun d => clipped_length (mask_req rs d) (snd d) < snd d) sh).
+Proof. exact tensor_mask_lenient_clips. Qed.
+
+(* the constructor establishes exactly the invariant C16_tensor_range_get_total assumes *)
+Theorem C16_tensor_range_ctor_establishes_invariant : forall strict sh rs sh' cl,
+  NoDup (names_of sh) -> Forall (fun d => snd d <= usize_max) sh -> names_ok sh rs ->
+  tensor_range strict sh rs = Ok (sh', cl) ->
+  ranges_ok sh cl /\ names_of sh' = names_of sh /\ lens_of sh' = map r_length cl /\ valid_shape sh'.
+Proof. exact tensor_range_establishes_ranges_ok. Qed.
+
+(* ---- fallible element access on the view adaptors modelled with machine arithmetic ---- *)
+
+Theorem C16_tensor_mask_get_total : forall m sh cl idx,
+  valid_shape sh -> elements sh <= usize_max ->
+  tensor_mask_get m sh cl idx =
+  Ok (get_index_direct (map (fun p => mask_index (fst p) (snd p)) (combine cl idx))
+                       (compute_strides sh) sh).
+Proof. exact tensor_mask_get_total. Qed.
+
+Theorem C16_tensor_reverse_get_total : forall m sh reversed idx,
+  valid_shape sh -> elements sh <= usize_max ->
+  tensor_reverse_get m sh reversed idx =
+  Ok (get_index_direct (map reverse_map (combine (lens_of sh) (combine reversed idx)))
+                       (compute_strides sh) sh).
+Proof. exact tensor_reverse_get_total. Qed.
+
+Theorem C16_matrix_range_get_total : forall m rows cols rr cr row col,
+  rows * cols <= usize_max -> 0 < rows -> 0 < cols ->
+  matrix_range_get m rows cols rr cr row col =
+  Ok (clipped_length rr rows, clipped_length cr cols,
+      if (row <? clipped_length rr rows) && (col <? clipped_length cr cols)
+      then Some ((r_start rr + row) * cols + (r_start cr + col)) else None).
+Proof. exact matrix_range_get_total. Qed.
+
+Theorem C16_matrix_reverse_get_total : forall m rows cols rr cr rrev crev row col,
+  rows * cols <= usize_max -> 0 < rows -> 0 < cols ->
+  exists r, matrix_reverse_get m rows cols rr cr rrev crev row col = Ok r /\
+    (r <> None <-> row < clipped_length rr rows /\ col < clipped_length cr cols).
+Proof. exact matrix_reverse_get_total. Qed.
+
+(* EVERY view adaptor and composition as the receiver (C02's model: ideal arithmetic, `option`
+   results): absent exactly outside the reported shape *)
+Theorem C16_every_adaptor_checked_get : forall v c idx,
+  Views.v_ctor v = Ok c -> C02P.usize_view c -> length idx = length (Views.c_shape c) ->
+  (Views.c_get c idx = None <-> ~ in_range idx (lens_of (Views.c_shape c))).
+Proof. exact C16IndexP.every_adaptor_checked_get. Qed.
+
+(* ---- fallible constructors and conversions, dimension-order access, scalar conversion ---- *)
+
+Theorem C16_tensor_try_from_total : forall A sh (data : list A),
+  tensor_try_from sh data <> Panic /\
+  ((exists t, tensor_try_from sh data = Ok t) <->
+   valid_shape sh /\ elements sh = N.of_nat (length data) /\ elements sh <= usize_max) /\
+  (forall e, tensor_try_from sh data = Err e -> e = sshape sh).
+Proof. exact @tensor_try_from_total. Qed.
+
+Theorem C16_dimension_order_access_total : forall A (t : tensor A) req,
+  access_try_from t req <> Panic /\
+  (NoDup (names_of (t_shape t)) -> length req = length (t_shape t) ->
+   ((exists a, access_try_from t req = Ok a) <-> Permutation (names_of (t_shape t)) req)) /\
+  (forall e, access_try_from t req = Err e -> e = SL [sshape (t_shape t); snames req]).
+Proof. exact @access_try_from_total. Qed.
+
+Theorem C16_with_names_total : forall rows cols rr cr n0 n1, rows <= usize_max -> cols <= usize_max ->
+  let sh := [(n0, clipped_length rr rows); (n1, clipped_length cr cols)] in
+  with_names rows cols rr cr n0 n1 =
+  if negb (Nat.eqb n0 n1) && (0 <? clipped_length rr rows) && (0 <? clipped_length cr cols)
+  then Ok sh else Err (sshape sh).
+Proof. exact with_names_total. Qed.
+
+Theorem C16_try_into_scalar_total : forall rows cols,
+  try_into_scalar rows cols <> Panic /\
+  ((exists x, try_into_scalar rows cols = Ok x) <-> rows = 1 /\ cols = 1).
+Proof. exact try_into_scalar_total. Qed.
+
+(* ---- record-container collection ---- *)
+
+(* collect_into_components on ANY stream of records (given by their histories): the
+   `history.unwrap()` is never reached with None; Ok exactly for a non-empty stream with one
+   history; otherwise Empty, or InconsistentHistory { first, later } with the stream's first
+   history and the LAST one differing from it *)
+Theorem C16_collect_total : forall tags,
+  collect_components tags <> Panic /\
+  collect_components tags =
+    match tags with
+    | [] => Err e_empty
+    | f :: l => match last_differing f l with
+                | Some x => Err (e_inconsistent f x)
+                | None => Ok f
+                end
+    end /\
+  (forall h, collect_components tags = Ok h <-> tags <> [] /\ Forall (eq h) tags).
+Proof.
+  intros tags. split; [exact (collect_components_total tags)|].
+  split; [exact (collect_components_spec tags)|exact (collect_components_ok_iff tags)].
+Qed.
+
+Theorem C16_record_tensor_from_iter_total : forall sh tags,
+  record_tensor_from_iter sh tags <> Panic /\
+  (forall r, record_tensor_from_iter sh tags = Ok r <->
+     tags <> [] /\ Forall (eq (snd r)) tags /\ fst r = sh /\
+     valid_shape sh /\ elements sh = N.of_nat (length tags) /\ elements sh <= usize_max) /\
+  (forall e, record_tensor_from_iter sh tags = Err e ->
+     (tags = [] /\ e = e_empty) \/
+     (exists f l x, tags = f :: l /\ e = e_inconsistent f x /\ In x l /\ x <> f) \/
+     (e = e_shape_len sh (N.of_nat (length tags)) /\
+      ~ (valid_shape sh /\ elements sh = N.of_nat (length tags) /\ elements sh <= usize_max))).
+Proof.
+  intros sh tags. split; [exact (record_tensor_from_iter_total sh tags)|].
+  split; [exact (record_tensor_from_iter_ok_iff sh tags)|exact (record_tensor_from_iter_err sh tags)].
+Qed.
+
+Theorem C16_record_matrix_from_iter_total : forall rows cols tags,
+  record_matrix_from_iter rows cols tags <> Panic /\
+  (forall r, record_matrix_from_iter rows cols tags = Ok r <->
+     tags <> [] /\ Forall (eq (snd r)) tags /\ fst r = [(0%nat, rows); (1%nat, cols)] /\
+     rows * cols = N.of_nat (length tags) /\ rows * cols <= usize_max) /\
+  (forall e, record_matrix_from_iter rows cols tags = Err e ->
+     (tags = [] /\ e = e_empty) \/
+     (exists f l x, tags = f :: l /\ e = e_inconsistent f x /\ In x l /\ x <> f) \/
+     (e = e_shape_len [(0%nat, rows); (1%nat, cols)] (N.of_nat (length tags)) /\
+      ~ (rows * cols = N.of_nat (length tags) /\ rows * cols <= usize_max))).
+Proof.
+  intros rows cols tags. split; [exact (record_matrix_from_iter_total rows cols tags)|].
+  split; [exact (record_matrix_from_iter_ok_iff rows cols tags)|exact (record_matrix_from_iter_err rows cols tags)].
+Qed.
+
+Theorem C16_from_iters_streams_independent : forall sh rows cols streams,
+  record_tensor_from_iters sh streams = map (record_tensor_from_iter sh) streams /\
+  record_matrix_from_iters rows cols streams = map (record_matrix_from_iter rows cols) streams /\
+  Forall (fun o => o <> Panic) (record_tensor_from_iters sh streams) /\
+  Forall (fun o => o <> Panic) (record_matrix_from_iters rows cols streams).
+Proof. exact from_iters_pointwise. Qed.
+
+(* ---- determinant / inverse / decompositions on degenerate input (decided by C07 / C08; the
+   models are `option`-valued total functions: absence characterised, no Panic constructor) ---- *)
+Theorem C16_linalg_absent_iff : forall R (ops : Num.numops R) (m : list (list R)),
+  ((1 <= LinAlg.mrows m)%nat -> (LinAlg.det_tensor ops m = None <-> LinAlg.mrows m <> LinAlg.mcols m)) /\
+  (LinAlg.mrows m <> LinAlg.mcols m -> LinAlg.inverse_tensor ops m = None) /\
+  (Decomp.qr ops m = None <-> (LinAlg.mrows m < LinAlg.mcols m)%nat).
+Proof. exact @C16IndexP.linalg_absent_iff. Qed.
+
+(* non-vacuity of the API-level hypotheses: a 2 x 3 source, a lenient range request that is
+   clipped, a strict one that is reported outside, a mask that would hide everything, and a
+   mixed-history stream *)
+Example C16_api_nonvacuous :
+  let sh := [(0%nat, 2); (1%nat, 3)] in
+  names_ok sh [(1%nat, mkRange 1 usize_max)] /\
+  tensor_range false sh [(1%nat, mkRange 1 usize_max)] =
+    Ok ([(0%nat, 2); (1%nat, 2)], [mkRange 0 2; mkRange 1 2]) /\
+  tensor_range true sh [(1%nat, mkRange 1 usize_max)] =
+    Err (outside_shape sh [None; Some (mkRange 1 usize_max)]) /\
+  tensor_mask Debug false sh [(0%nat, mkRange 0 usize_max)] = Err (SL [SZ 1; sshape [(0%nat, 0); (1%nat, 3)]]) /\
+  tensor_range false sh [(7%nat, mkRange 0 1)] = Err (invalid_dimensions sh [(7%nat, mkRange 0 1)]) /\
+  collect_components [0; 0; 1; 2] = Err (e_inconsistent 0 2) /\
+  record_tensor_from_iter [(0%nat, 2)] [1; 1] = Ok ([(0%nat, 2)], 1).
+Proof.
+  cbv zeta. split.
+  - split; [repeat constructor; intros []|]. intros x [<-|[]]. right. left. reflexivity.
+  - vm_compute. repeat split.
+Qed.
+
+Print Assumptions C16_from_named_to_all_total.
+Print Assumptions C16_tensor_range_ctor_total.
+Print Assumptions C16_tensor_mask_ctor_total.
+Print Assumptions C16_tensor_range_ctor_spec.
+Print Assumptions C16_tensor_mask_ctor_spec.
+Print Assumptions C16_tensor_range_ctor_errors.
+Print Assumptions C16_tensor_mask_ctor_errors.
+Print Assumptions C16_tensor_range_lenient_clips.
+Print Assumptions C16_tensor_mask_lenient_clips.
+Print Assumptions C16_tensor_range_ctor_establishes_invariant.
+Print Assumptions C16_tensor_mask_get_total.
+Print Assumptions C16_tensor_reverse_get_total.
+Print Assumptions C16_matrix_range_get_total.
+Print Assumptions C16_matrix_reverse_get_total.
+Print Assumptions C16_every_adaptor_checked_get.
+Print Assumptions C16_tensor_try_from_total.
+Print Assumptions C16_dimension_order_access_total.
+Print Assumptions C16_with_names_total.
+Print Assumptions C16_try_into_scalar_total.
+Print Assumptions C16_collect_total.
+Print Assumptions C16_record_tensor_from_iter_total.
+Print Assumptions C16_record_matrix_from_iter_total.
+Print Assumptions C16_from_iters_streams_independent.
+Print Assumptions C16_linalg_absent_iff.
